@@ -14,7 +14,7 @@ cp "$D/demo_test.go" "$W/r/$SUB/zz_seed_demo_test.go"
 PKG=./$SUB
 if go test -vet=off -count=1 -run . "$PKG" >"$W/base.log" 2>&1; then echo "demo without patch: PASS"; else echo "demo without patch: FAIL (unexpected)"; tail -5 "$W/base.log"; fi
 rm "$W/r/$SUB/zz_seed_demo_test.go"
-git apply --whitespace=nowarn "$D/patch.diff" || { echo "patch does not apply"; exit 3; }
+git apply --whitespace=nowarn "$D/patch.diff" 2>/dev/null || patch -p1 -F3 -s --no-backup-if-mismatch < "$D/patch.diff" || { echo "patch does not apply"; exit 3; }
 go build ./... || { echo "patched tree does not compile"; exit 4; }
 if go test -vet=off -count=1 ./... >"$W/suite.log" 2>&1; then echo "existing suite with patch: PASS"; else echo "existing suite with patch: FAIL"; grep -E "^(FAIL|---)" "$W/suite.log" | head; fi
 cp "$D/demo_test.go" "$W/r/$SUB/zz_seed_demo_test.go"
